@@ -118,6 +118,7 @@ def seeds(n):
         for s in special[fam]:
             out.append((fam, s))
         out += [(fam, s) for s in shape_seeds(fam)]
+        out += [(fam, s) for s, _ in observe.count_seeds(fam)[::2]]
     return out
 
 
